@@ -26,6 +26,7 @@ TokText(id) == CASE id = "s.pn" -> "ex:a"           [] id = "s.abs" -> "<http://
                  [] id = "p.type" -> "rdf:type"
                  [] id = "o.pn" -> "ex:b"           [] id = "o.abs" -> "<http://x.org/o#f>" [] id = "o.rel" -> "<r2>"
                  [] id = "o.bn" -> "_:b2"           [] id = "o.int" -> "57"
+                 [] id = "o.dot" -> "rel:x"          \* a prefix whose namespace ends in a dot (a version: .../v1.)
                  [] id = "o.pint" -> "+8"            [] id = "o.nint" -> "-30"       \* INTEGER ::= [+-]? [0-9]+
                  [] id = "o.str" -> "\"x y\""       [] id = "o.xsd" -> "\"5\"^^xsd:int"
                  [] id = "o.dti" -> "\"v\"^^<http://x.org/dt>"  [] id = "o.dtp" -> "\"v\"^^ex:dt"
@@ -45,6 +46,7 @@ TokTerm(id) == CASE id = "s.pn" -> <<"IRI", EXNS \o "a">>   [] id = "s.abs" -> <
                  [] id = "o.pn" -> <<"IRI", EXNS \o "b">>    [] id = "o.abs" -> <<"IRI", "http://x.org/o#f">>
                  [] id = "o.rel" -> <<"IRI", BASE \o "r2">>  [] id = "o.bn" -> <<"BNode", "_:b2">>
                  [] id = "o.int" -> <<XSDNS \o "integer", "">>
+                 [] id = "o.dot" -> <<"IRI", "http://r.org/v1.x">>
                  [] id = "o.pint" -> <<XSDNS \o "integer", "">>  [] id = "o.nint" -> <<XSDNS \o "integer", "">>
                  [] id = "o.str" -> <<XSD_STRING, "">>       [] id = "o.xsd" -> <<XSDNS \o "int", "">>
                  [] id = "o.dti" -> <<"http://x.org/dt", "">> [] id = "o.dtp" -> <<EXNS \o "dt", "">>
@@ -57,7 +59,7 @@ TokTerm(id) == CASE id = "s.pn" -> <<"IRI", EXNS \o "a">>   [] id = "s.abs" -> <
                  [] id = "o.urn" -> <<"IRI", BASE \o "urn:x:1">>      \* documented divergence: only http(s) IRIs count as absolute
 SubjToks == {"s.pn", "s.abs", "s.rel", "s.bn", "s.https", "s.bs"}
 PredToks == {"p.pn", "p.a", "p.abs", "p.type", "p.bs"}
-ObjToks == {"o.pn", "o.abs", "o.rel", "o.bn", "o.int", "o.pint", "o.nint", "o.str", "o.xsd", "o.dti", "o.dtp", "o.dtg", "o.bs", "o.lang", "o.spec", "o.esc", "o.cls", "o.https"}
+ObjToks == {"o.pn", "o.abs", "o.rel", "o.bn", "o.int", "o.pint", "o.nint", "o.dot", "o.str", "o.xsd", "o.dti", "o.dtp", "o.dtg", "o.bs", "o.lang", "o.spec", "o.esc", "o.cls", "o.https"}
 Punct == {";", ",", "."}
 
 \* abstract triples of a token sequence S P O (, O)* (; P O (, O)*)* . ...   (what a standard parser yields)
@@ -94,7 +96,8 @@ Gaps == {"sp", "sp2", "tab", "nl", "nlsp", "cmt", "cline"}
 HeaderLines == << Chars("@prefix ex: <http://ex.org/> ."), Chars("@prefix xsd: <http://www.w3.org/2001/XMLSchema#> ."),
                   Chars("@prefix rdf: <http://www.w3.org/1999/02/22-rdf-syntax-ns#> ."),
                   Chars("@prefix geo: <http://www.w3.org/2003/01/geo/wgs84_pos#> ."), Chars("@prefix base: <http://bb.org/> ."),
-                  Chars("@prefix prefixes: <http://pp.org/> ."), Chars("@base <http://b.org/d/> .") >>
+                  Chars("@prefix prefixes: <http://pp.org/> ."), Chars("@prefix rel: <http://r.org/v1.> ."),
+                  Chars("@base <http://b.org/d/> .") >>
 CommentTail == <<" ", "#", " ", "c", " ", "\"", " ", ".">>          \* trailing comment (with a quote and a dot inside)
 CommentLine == <<"#", " ", "l", "i", "n", "e", " ", ";">>           \* a whole comment line
 \* the document as the sequence of its lines (the line reader splits on line breaks and skips blank lines)
